@@ -56,6 +56,10 @@ def layouts(rng, quick=True):
                                         names=("sample", "feature") if rng.random() < 0.6 else ("smp", "ftr"),
                                         extra_coord=bool(rng.random() < 0.3), multiindex=None,
                                         ds_mode="equal" if rng.random() < 0.75 else "different"))
+    # long lists (more than ten items: positions need two digits), every item with its own feature labels
+    for n_items, kinds in ((12, ["asc", "unsorted"]), (11, ["datetime", "str"])) if quick else ((12, ["asc", "unsorted"]), (11, ["datetime", "str"]), (23, ["unsorted", "unsorted"])):
+        out.append(dict(container="list", dims=["time", "lat"], sizes=[3, 3], kinds=kinds, sample_dims=["time"], names=("sample", "feature"),
+                        extra_coord=False, multiindex=None, ds_mode="equal", n_items=n_items))
     # MultiIndex layouts: one sample dim or one feature dim is itself a MultiIndex
     for container in ("DataArray", "Dataset", "list"):
         for which in ("sample", "feature"):
@@ -92,6 +96,26 @@ def build(lay, rng):
         b = one(1000.0, "b", drop_dim=(fdims[-1] if lay["ds_mode"] == "different" and lay["multiindex"] is None else None))
         ds = xr.Dataset({"a": a, "b": b})
         return ds, [ds["a"], ds["b"]]
+    if lay.get("n_items"):
+        first = one(0.0, "v0")
+        items = [first]
+        for j in range(1, lay["n_items"]):
+            it = one(1000.0 * j, "v%d" % j)
+            # the shared sample coordinate must be identical; the feature labels are each item's own
+            it = it.assign_coords({d: first[d].values for d in lay["sample_dims"]})
+            for d in it.dims:
+                if d in lay["sample_dims"]:
+                    continue
+                v = it[d].values
+                if v.dtype.kind in "iuf":
+                    v = v + 100 * j
+                elif v.dtype.kind == "M":
+                    v = v + np.timedelta64(10 * j, "D")
+                else:
+                    v = np.array(["%s%d" % (x, j) for x in v])
+                it = it.assign_coords({d: v})
+            items.append(it)
+        return items, items
     a = one(0.0, "a")
     b = one(1000.0, "b")
     if lay["multiindex"] is None:
